@@ -1390,6 +1390,10 @@ class Interp:
                 if d is not None
             }
             return fn
+        if k is ast.GeneratorExp and getattr(self, "genexp_hook", None) is not None:
+            r = self.genexp_hook(self, node, env)
+            if r is not NOTSET:
+                return r
         if k in (ast.ListComp, ast.GeneratorExp, ast.SetComp):
             out = []
             self.eval_comp(node, 0, Env(env, env.module), out)
